@@ -18,11 +18,11 @@ from .. import REPO, VERIF
 ID = "C18"
 LEVEL = "exploration"
 RULE = ("fresh interpreter per PYTHONHASHSEED in 0..15 (quick) / 0..63 (thorough); inside each, the "
-        "10-item battery (escaping of quotes/newlines/metacharacters, same dependency name with two "
+        "11-item battery (escaping of quotes/newlines/metacharacters, same dependency name with two "
         "spellings of one version in separate documents, a second text document + css()/number conversions of "
         "equal-but-different values, documents with 7+ dependency names, "
         "duplicate head_content, HTMLTextDocument extraction of 5 serialisations with repeats, JSX "
-        "component, attribute merges, resolution + serialisation), started with item (seed mod 10) as "
+        "component, attribute merges, resolution + serialisation), started with item (seed mod 11) as "
         "the very first library action of the process, then rendered in every permutation of its first 5 (quick: 120) / 7 (thorough: "
         "5040) items; all ordered pairs of 17 head_content payloads. Non-trivial = (seed, order) "
         "pairs other than the first. 2^32 seeds cannot be enumerated: the seed range is the bound.")
@@ -65,7 +65,8 @@ def make_run(tier):
                               f"rendering {od['item']} depends on what was rendered before (seed {seed})",
                               {"seed": seed, "order": od["order"]}))
             for pb in out["hc"]["problems"]:
-                viols.append(("head_content", pb, {"seed": seed}))
+                viols.append(("history-dependent" if "differs from a fresh construction" in pb else "head_content",
+                              pb, {"seed": seed}))
             if out["mode"] != "invisible":
                 viols.append(("render-mode-leak", "html_dependency_render_mode changed", {"seed": seed}))
             sig = (out["digests"], out["hc"]["names"])
